@@ -187,7 +187,12 @@ theorem c05_text_full_regex (px : E.ParseExt) (t : Bytes) (id : Int) (r : NetRul
 /-- `/regex/` rules, from the TEXT: the shortcut computed by the text-level model of
     `findRegexpShortcut` (the heuristics' candidates filtered against the literals Go's parse tree
     requires — adjacent literals merged, common prefixes of alternations factored) is a factor of
-    every lower-cased target the pattern model accepts, with or without `$match-case`. -/
+    every lower-cased target the pattern model accepts, with or without `$match-case`.
+    (Group P3: for `$match-case` rules `modelPat` searches GO's tree of the text — `goTree`, the written
+    tree up to the fold flags `parser.factor` mixes up — and `goReq` factors with Go's flag-blind
+    `Equal`; the statement covers every assignment of fold flags, `FoldRel`.  `modelPat` and
+    `modelRegexpShortcut` answer `none`, and nothing is claimed, for the expressions listed in
+    UF/Compose2/Pat.lean and UF/Compose2/RegexShortcut.lean.) -/
 theorem c05_regex_text (p : Bytes) (mc : Bool) (u sc : Bytes) (hre : UF.isRegexPattern p = true)
     (hsc : modelRegexpShortcut p = some sc) (h : modelPat p mc u = some true) :
     hasSub (toLower u) (loadShortcut sc) = true := by
